@@ -165,6 +165,9 @@ func (e *Engine) verifyFunction(fn *ssa.Function, ct *Contract) {
 				st2.pc = st2.pc[:save]
 			}
 			for _, en := range c.Ensures {
+				if c != ct && hasTag(en.Tags, "ghost") {
+					continue // ghost call records of an interface contract are not obligations of an implementation
+				}
 				v, err := ctx.evalAs(en.E, sBool)
 				if err != nil {
 					e.errorf("%s: ensures %q: %v", fn, en.Src, err)
